@@ -89,14 +89,14 @@ case("bic-not-country-benign", "C04,C05", BIC, "        if self.country is None:
 case("nfkc-normalise", "C10", C, "        return super().__new__(cls, clean(value))", '        return super().__new__(cls, clean(unicodedata.normalize("NFKC", value)))', V, "R10-norm",
      more=[{"file": C, "old": "import copy\n", "new": "import copy\nimport unicodedata\n"}])
 # ---- C10 / C11 -----------------------------------------------------------------------------------------------
-case("clean-ascii-ws", "C10", C, '_clean_regex = re.compile(r"\\s+")', '_clean_regex = re.compile(r"[ \\t\\n]+")', V, "whitespace")
-case("clean-re-ascii", "C10", C, '_clean_regex = re.compile(r"\\s+")', '_clean_regex = re.compile(r"\\s+", re.ASCII)', V, "whitespace")
-case("clean-dash", "C10", C, '_clean_regex = re.compile(r"\\s+")', '_clean_regex = re.compile(r"[\\s-]+")', V, "payload")
-case("clean-count", "C10", C, 'return _clean_regex.sub("", s).upper()', 'return _clean_regex.sub("", s, 8).upper()', V, "shape")
-case("clean-no-upper", "C10", C, 'return _clean_regex.sub("", s).upper()', 'return _clean_regex.sub("", s)', V, "shape")
-case("clean-strip-benign", "C10", C, 'return _clean_regex.sub("", s).upper()', 'return _clean_regex.sub("", s.strip()).upper()', S)
+case("clean-ascii-ws", "C10,C01,C04", C, '_clean_regex = re.compile(r"\\s+")', '_clean_regex = re.compile(r"[ \\t\\n]+")', V, "whitespace")
+case("clean-re-ascii", "C10,C01,C04", C, '_clean_regex = re.compile(r"\\s+")', '_clean_regex = re.compile(r"\\s+", re.ASCII)', V, "whitespace")
+case("clean-dash", "C10,C01,C04", C, '_clean_regex = re.compile(r"\\s+")', '_clean_regex = re.compile(r"[\\s-]+")', V, "payload")
+case("clean-count", "C10,C01,C04", C, 'return _clean_regex.sub("", s).upper()', 'return _clean_regex.sub("", s, 8).upper()', V, "shape")
+case("clean-no-upper", "C10,C01,C04", C, 'return _clean_regex.sub("", s).upper()', 'return _clean_regex.sub("", s)', V, "shape")
+case("clean-strip-benign", "C10,C01,C04", C, 'return _clean_regex.sub("", s).upper()', 'return _clean_regex.sub("", s.strip()).upper()', S)
 case("formatted-off-by-one", "C10", I, 'for i in range(0, len(self), 4))', 'for i in range(0, len(self) - 1, 4))', V, "R10-format")
-case("init-reads-raw", "C10", I, "        self.bban = BBAN(self.country_code, self._get_slice(start=4))", "        self.bban = BBAN(iban[:2], self._get_slice(start=4))", V, "R10-norm")
+case("init-reads-raw", "C10,C01,C02,C03", I, "        self.bban = BBAN(self.country_code, self._get_slice(start=4))", "        self.bban = BBAN(iban[:2], self._get_slice(start=4))", V, "-norm")
 case("proxy-swapped", "C11", I, "        return self.bban.branch_code\n\n    @property\n    def account_code", "        return self.bban.bank_code\n\n    @property\n    def account_code", V, "R11-proxy")
 case("slice-end-strict", "C11", C, "if start < len(self) and (end is None or end <= len(self)):", "if start < len(self) and (end is None or end < len(self)):", V, "R11-tile")
 case("bic-location-3", "C11", BIC, "return self._get_slice(start=6, end=8)", "return self._get_slice(start=6, end=9)", V, "R11-tile")
